@@ -286,6 +286,15 @@ def b_symmetries(ctx):
                             ok = ok and y[g] == vv
                     if not ok:
                         ctx.fail(f'C03:refinement:{det}', f'{det}: inserting {v} at {pos} into {list(s)} changes the result', {'signal': list(s), 'pos': pos, 'value': v, 'detector': det})
+                    # the refined signal streamed with the inserted sample as a chunk of its own (a chunk that holds no reversal): same result
+                    # (added after seed C03-f shortened the cached tail whenever a chunk adds no turning point)
+                    if 1 <= pos < len(y) - 1:
+                        r3, _, _ = run(det, [y[:pos], y[pos:pos + 1], y[pos + 1:]])
+                        ctx.case(nt)
+                        if not (r3['from'] == ref['from'] and r3['to'] == ref['to'] and r3['residuals'] == ref['residuals']) or \
+                                (det != 'fkm' and (r3['ifrom'], r3['ito'], r3['residual_index']) != (r['ifrom'], r['ito'], r['residual_index'])):
+                            ctx.fail(f'C03:refinement:streamed:{det}', f'{det}: {y} fed as {y[:pos]} | {y[pos:pos + 1]} | {y[pos + 1:]} differs from the unrefined signal {list(s)}',
+                                     {'signal': list(s), 'pos': pos, 'value': v, 'detector': det})
             # Series index types
             if len(x) >= 3 and ctx.evaluations % 7 == 0:
                 for idx in (pd.RangeIndex(5, 5 + len(x)), pd.Index(np.linspace(0.5, 9.5, len(x))), pd.date_range('2020-01-01', periods=len(x), freq='s'),
